@@ -38,13 +38,20 @@ type c05Case struct {
 
 var c05Codes = []uint32{1, 2, 3, 4, 5, 6, 7, 8, 9, 10, 11, 12, 13, 14, 15, 16, 17, 18, 100, 1 << 31, 1<<32 - 1}
 
-func c05Messages() []string {
+func c05Messages(thorough bool) []string {
 	alpha := []string{"a", "%", " ", "\n", "é"}
+	depth := 3
+	if thorough {
+		// plus DEL, NUL, a 4-byte rune, '+' and a hex digit (so that "%4" + "1"-like sequences and
+		// escapes adjacent to multi-byte runes are all formed), to depth 4
+		alpha = append(alpha, "\x7f", "\x00", "😀", "+", "4")
+		depth = 4
+	}
 	var out []string
 	var rec func(cur string, d int)
 	rec = func(cur string, d int) {
 		out = append(out, cur)
-		if d == 3 {
+		if d == depth {
 			return
 		}
 		for _, a := range alpha {
@@ -142,6 +149,18 @@ func (e *c05Env) exec(tc *c05Case) (oracle, note string) {
 		res = doWeb(e.mux, full, "application/grpc-web+json", nil, reqBody{Data: wire.GRPCFrame(0, js)})
 	case "webtext", "webtext+proto":
 		res = doWeb(e.mux, full, "application/grpc-web-text"+strings.TrimPrefix(tc.Proto, "webtext"), nil, reqBody{Data: wire.GRPCFrame(0, pb)})
+	case "grpc-gzip", "web-gzip", "webtext-gzip":
+		// gzip message compression negotiated: replies are compressed frames, the status follows them
+		hdr := http.Header{"Grpc-Encoding": {"gzip"}, "Grpc-Accept-Encoding": {"gzip"}}
+		frame := wire.GRPCFrame(1, gzipBytes(pb))
+		switch tc.Proto {
+		case "grpc-gzip":
+			res = doGRPC(e.mux, full, "application/grpc", hdr, reqBody{Data: frame})
+		case "web-gzip":
+			res = doWeb(e.mux, full, "application/grpc-web+proto", hdr, reqBody{Data: frame})
+		default:
+			res = doWeb(e.mux, full, "application/grpc-web-text", hdr, reqBody{Data: frame})
+		}
 	case "ws":
 		res = doWS(e.mux, "/ws/"+tc.Shape, "", nil, wsText(js), nil)
 	default:
@@ -302,9 +321,9 @@ func (e *c05Env) exec(tc *c05Case) (oracle, note string) {
 }
 
 func c05Cases(thorough bool) []c05Case {
-	msgs := c05Messages()
+	msgs := c05Messages(thorough)
 	few := []string{"", "plain", "a%b é\n", strings.Repeat("y", 122) + "é"}
-	protos := []string{"http-json", "http-proto", "http-implicit", "twirp-json", "twirp-proto", "grpc", "grpc+proto", "grpc+json", "web", "web+proto", "web+json", "webtext", "webtext+proto", "ws"}
+	protos := []string{"http-json", "http-proto", "http-implicit", "twirp-json", "twirp-proto", "grpc", "grpc+proto", "grpc+json", "web", "web+proto", "web+json", "webtext", "webtext+proto", "grpc-gzip", "web-gzip", "webtext-gzip", "ws"}
 	var out []c05Case
 	for _, p := range protos {
 		shapes := []string{"unary"}
@@ -330,7 +349,10 @@ func c05Cases(thorough bool) []c05Case {
 				if sh != "unary" && sh != "ss" && sh != "bidi" && !thorough {
 					continue
 				}
-				for _, m := range msgs {
+				for mi, m := range msgs {
+					if thorough && len(msgs) > 2000 && sh != "unary" && mi%7 != after {
+						continue // the long table: in full on unary, every 7th message on the other shapes
+					}
 					for _, code := range []uint32{5, 13} {
 						out = append(out, c05Case{Proto: p, Shape: sh, Code: code, Message: m, After: after})
 					}
@@ -343,7 +365,7 @@ func c05Cases(thorough bool) []c05Case {
 
 func runC05(c *Ctx) {
 	r := c.Run
-	r.Rule("protocol{HTTP json/proto/implicit route, Twirp json/proto, gRPC (+proto,+json), gRPC-web (+proto,+json), gRPC-web-text (+proto), WebSocket} × shape{unary, client-, server-, bidi-streaming} × error position{before any reply, after 1, after 2} × code{1..16,17,18,100,2^31,2^32-1} × message{all strings of length <= 3 over {a,%,space,\\n,é}, %41, CJK, DEL, control chars, 200×x, lengths 119..126 with and without a multi-byte rune on the close-frame boundary} × details{0,1,2}; distinct = (protocol, shape, position, code class, message class) combinations that produced a decodable status")
+	r.Rule("protocol{HTTP json/proto/implicit route, Twirp json/proto, gRPC (+proto,+json), gRPC-web (+proto,+json), gRPC-web-text (+proto), gRPC / gRPC-web / gRPC-web-text with gzip message compression negotiated, WebSocket} × shape{unary, client-, server-, bidi-streaming} × error position{before any reply, after 1, after 2} × code{1..16,17,18,100,2^31,2^32-1} × message{all strings of length <= 3 over {a,%,space,\\n,é} (thorough: length <= 4 over those plus DEL, NUL, a 4-byte rune, '+', '4'), %41, CJK, DEL, control chars, 200×x, lengths 119..126 with and without a multi-byte rune on the close-frame boundary} × details{0,1,2}; distinct = (protocol, shape, position, code class, message class) combinations that produced a decodable status")
 	r.Assume("CANCELLED may map to 408 or 499; Twirp HTTP statuses and Twirp names of out-of-range codes are not demanded; the WebSocket close code only has to be a sendable, non-1000 code; error framing after HTTP stream messages is not demanded", "leading/trailing spaces of the message are not representable in a gRPC-web trailer frame and are not compared there")
 	cases := c05Cases(c.Thorough())
 	envs := make([]*c05Env, explore.Workers)
